@@ -57,10 +57,19 @@ def judge(R, item, oriented, res, lean_ans):
         R.violation("property_violation", "total", ENTRY, inst, impl_output=res, config=cfg, oracle="raised/hang")
         return
     match = [tuple(p) for p in res["pairs"]]
-    model = gslib.parse_pairs(lean_ans)
-    if model is None or sorted(res["pairs"]) != model:
+    model = gslib.parse_pairs(lean_ans) if lean_ans is not None else None
+    if lean_ans is None:
+        R.count("judged_by_the_direct_oracle_only(instance_too_large_for_the_compiled_model)")
+    elif model is None or sorted(res["pairs"]) != model:
         R.corr_break("gs pair set = model pair set (galeShapley)", ENTRY, inst, res["pairs"], lean_ans, cfg)
     nontriv = None
+    if item.get("unique") is not None:
+        # an instance with exactly one stable matching (one seat, acceptability leaves a single pair): best and worst coincide
+        R.count("long_run_unique_stable_matching")
+        if sorted(res["pairs"]) != sorted(item["unique"]):
+            R.violation("property_violation", "the only stable matching of the instance", ENTRY, {"long_run_n": max(inst["n"], inst["m"])},
+                        impl_output=res["pairs"][:10], oracle={"the_unique_stable_matching": item["unique"]}, config=cfg)
+            return
     if item.get("brute"):
         stables = gslib.all_stable(inst)
         R.count(f"stable_matchings={min(len(stables), 5)}{'+' if len(stables) > 5 else ''}")
@@ -107,7 +116,8 @@ def judge(R, item, oriented, res, lean_ans):
 def run_items(R, items, oriented, deadline=120.0):
     cases = [{"items": ch, "oriented": oriented} for ch in c01.chunks(items, 100)]
     results = pmap("c02", "impl_batch", cases, deadline=deadline)
-    answers = lean_query([gslib.lean_line(it["inst"], oriented, 0) for it in items])
+    answers = lean_query([gslib.lean_line(it["inst"], oriented, 0) if it["inst"]["n"] * it["inst"]["m"] <= gslib.MODEL_MAX_CELLS else "gs 1 0 1 1 1 1 1" for it in items])
+    answers = [a if it["inst"]["n"] * it["inst"]["m"] <= gslib.MODEL_MAX_CELLS else None for a, it in zip(answers, items)]
     k = 0
     for case, res in zip(cases, results):
         if "results" not in res:
@@ -152,18 +162,26 @@ def run(R):
             n = R.rng.randint(1, nmax)
             m = R.rng.randint(1, nmax)
             I = gslib.rand_instance(R.rng, n, m, R.rng.choice([0, .3, .6]), R.rng.choice([0, .3, .6]))
+            if R.rng.random() < 0.08:
+                I["c"][R.rng.randrange(m)] = 2 ** 63 - 1      # "unlimited" capacity: the largest 64-bit integer (sys.maxsize)
+                R.count("relabel:some_capacity_maxsize")
             if not gslib.constructible(I):
                 continue
             sig = list(range(n)); R.rng.shuffle(sig)
             tau = list(range(m)); R.rng.shuffle(tau)
             items.append({"inst": I, "sig": sig, "tau": tau})
+        lr, uniq = gslib.long_run(R.rng.randint(10500, 12500), oriented)
+        items.append({"inst": lr, "unique": uniq})       # more than ten thousand rounds of deferred acceptance
         run_items(R, items, oriented)
 
 
 def replay(R, rep):
     inp = rep["input"]
     oriented = rep.get("config", {}).get("resident_oriented", True)
-    if "inst" in inp:
+    if "long_run_n" in inp:
+        lr, uniq = gslib.long_run(inp["long_run_n"], oriented)
+        item = {"inst": lr, "unique": uniq}
+    elif "inst" in inp:
         item = {"inst": inp["inst"], "sig": inp["sig"], "tau": inp["tau"]}
     else:
         item = {"inst": inp, "brute": inp["n"] <= 5 and inp["m"] <= 3}
